@@ -309,7 +309,7 @@ def edge_positions(a):
 
     from ..minieval import Unsupported
     from ..modelinterp import Hook, ModelInterp, Stub
-    PL = namedtuple('PosLine', 'startpos lineno length')
+    PL = namedtuple("PosLine", "startpos lineno length")
     hooks = {'PosLine': Hook(PL), 'LineInfo': Hook(lambda **kw: kw)}
     blc = a.p.func('tatsu.input.infos.PosLine.build_line_cache')
     impls = [
@@ -364,7 +364,7 @@ def r3_line_index_exhaustive(a, tier):
         'text at LF, CR and CRLF; lineat and poscol of the cursors agree with lineinfo',
         floor=300,
     )
-    PL = namedtuple('PosLine', 'startpos lineno length')
+    PL = namedtuple("PosLine", "startpos lineno length")
     hooks = {'PosLine': Hook(PL), 'LineInfo': Hook(lambda **kw: kw)}
     blc = a.p.func('tatsu.input.infos.PosLine.build_line_cache')
     impls = [
@@ -426,6 +426,82 @@ def r3_line_index_exhaustive(a, tier):
                         rep.fail(f'{q}.lineinfo', f'lineindex:{text!r}:{p_}:{at}', f'{q.split(".")[-1]} on the text {text!r}, offset {p_}, cursor standing at {at}: lineinfo gives '
                                  f'(line, col, start, text) = {got}, lineat/posline {la}, poscol {pc}; splitting the text at its line breaks '
                                  f'gives {w}', a.p.func(f'{q}.lineinfo').loc)
+    return rep
+
+
+def _walks(n: int):
+    yield 'ascending', list(range(n))
+    yield 'descending', list(range(n - 1, -1, -1))
+    yield 'zig-zag', [x for i in range((n + 1) // 2) for x in ([i, n - 1 - i] if i != n - 1 - i else [i])]
+
+
+def r3b_answers_have_no_memory(a, tier):
+    """lineinfo(offset) depends on the offset, not on what was asked before: ONE input object is asked for all offsets in several orders"""
+    import itertools
+
+    from collections import namedtuple
+
+    from ..minieval import Unsupported
+    from ..modelinterp import Hook, ModelInterp, Stub
+    n = 5 if tier == 'thorough' else 4
+    rep = RuleReport(
+        'C12.R3b',
+        f'the answer for an offset does not depend on the offsets asked before: for every text over {{letter, LF, CR}} up to length {n} with at least one '
+        'line break, ONE stand-in input (one cursor, one line cache) is asked lineinfo(offset) for all offsets in ascending, descending and zig-zag '
+        'order; each answer equals the split-at-line-breaks oracle (a remembered last line makes the first offset of the next line look like the end '
+        'of the previous one)',
+        floor=100,
+    )
+    helper = a.p.func('tatsu.input.infos.PosLine.build_line_cache')
+    PL = namedtuple("PosLine", "startpos lineno length")
+    # LineInfo as the record it is (fields read from the repository class): code may read its fields or derive a record from another (`_replace`)
+    li_cls = a.p.cls('tatsu.input.infos.LineInfo')
+    li_fields = [st.target.id for st in li_cls.node.body if isinstance(st, ast.AnnAssign) and isinstance(st.target, ast.Name)]
+    LI = namedtuple('LineInfo', li_fields, defaults=[None] * len(li_fields))
+    hooks = {'PosLine': Hook(PL), 'LineInfo': Hook(LI)}
+    impls = [
+        ('tatsu.input.textlines.TextLinesCursor', lambda cache, idx, text: Stub('tatsu.input.textlines.TextLinesCursor', pos=0, _input=Stub(
+            'tatsu.input.textlines.TextLines', line_cache=cache, line_index=idx, textstr=text, len=len(text), source='src'))),
+        ('tatsu.input.buffer.BufferCursor', lambda cache, idx, text: Stub('tatsu.input.buffer.BufferCursor', pos=0, buffer=Stub(
+            'tatsu.input.buffer.Buffer', pos=0, linecache=cache, lineindex=idx, text=text, source='src', len=len(text)), textstr=text)),
+    ]
+    n_bad = 0
+    for k in range(2, n + 1):
+        for tup in itertools.product('a\n\r', repeat=k):
+            text = ''.join(tup)
+            if '\n' not in text and '\r' not in text:
+                continue
+            lines = text.splitlines(keepends=True)
+            want, start = [], 0
+            for ln, line in enumerate(lines):
+                for j in range(len(line)):
+                    want.append((ln, j, start, line))
+                start += len(line)
+            for q, mk in impls:
+                try:
+                    idx = [('src', i) for i in range(len(lines))]
+                    cache, _count = ModelInterp(a, dict(hooks)).call_fn(helper, [lines, len(text)])
+                except Unsupported as e:
+                    raise AnalysisError(f'C12.R3b: cannot interpret build_line_cache: {e}') from e
+                for wname, order in _walks(len(text)):
+                    cur = mk(cache, idx, text)
+                    hist = []
+                    for p_ in order:
+                        it = ModelInterp(a, dict(hooks))
+                        try:
+                            li = it.apply(it.get_attr(cur, 'lineinfo'), [p_], {})
+                        except Unsupported as e:
+                            raise AnalysisError(f'C12.R3b: cannot interpret {q}.lineinfo: {e}') from e
+                        got = (li.line, li.col, li.start, li.text)
+                        hist.append(p_)
+                        if got != want[p_]:
+                            if n_bad < 6:
+                                n_bad += 1
+                                rep.fail(f'{q}.lineinfo', f'history:{text!r}:{wname}:{p_}', f'{q.split(".")[-1]} on the text {text!r}, asked for the offsets {hist} in this order on ONE '
+                                         f'input: lineinfo({p_}) gives (line, col, start, text) = {got}, splitting the text at its line breaks gives {want[p_]} - '
+                                         f'the answer depends on what was asked before', a.p.func(f'{q}.lineinfo').loc)
+                            break
+                    rep.add({'impl': q.split('.')[-1], 'text': text, 'order': wname, 'offsets_asked': len(hist), 'ok': len(hist) == len(order) and not (hist and got != want[hist[-1]])})
     return rep
 
 
@@ -515,4 +591,4 @@ def r6_memo_hit_unchanged(a, tier):
     return rep
 
 
-RULES = [r0_line_splitter, r1_parseinfo, r2_one_index, r3_line_index_exhaustive, r4_delivery, r5_skip_is_a_fixpoint, r6_memo_hit_unchanged]
+RULES = [r0_line_splitter, r1_parseinfo, r2_one_index, r3_line_index_exhaustive, r3b_answers_have_no_memory, r4_delivery, r5_skip_is_a_fixpoint, r6_memo_hit_unchanged]
